@@ -178,7 +178,7 @@ def run(ctx):
                     'doctest': c['doc'], 'diff': [[k, repr(a), repr(b)] for k, a, b in df],
                     'theorem_or_correspondence': 'correspondence run (feeds C02_want_decides, C02_fail_stop, C02_pass_iff)'},
                     found_input=bool(problem))
-    ctx.add_rule('doctests of 1..%d statements over %d statement kinds, every want placement x correct variant '
+    ctx.add_rule('doctests of 1..%d statements over %d statement kinds (incl. semicolon lines), every want placement x correct variant '
                  '(all output / last expression output / repr) x single corruption, exhaustively; plus seeded doctests of 3..8 '
                  'statements; plus all-skipped doctests; non-trivial = distinct doctest text that runs code'
                  % (2 if ctx.tier == 'quick' else 3, len(gendoc.KINDS)))
